@@ -1155,6 +1155,10 @@ func main() {
 	r.CasesProc("cold-start/ring", 8, ev.Opt{Procs: 8, HangViolation: true}, ringCase)
 	r.CasesProc("cold-start/syncring", 8, ev.Opt{Procs: 8, HangViolation: true}, syncCase)
 	r.Cases("typed", r.N(4000, 80000), ev.Opt{HangViolation: true, MaxCaseSeconds: 60}, ringtyped.Case)
+	// zero-size elements, capacities up to MaxInt (position + capacity overflows there)
+	r.Cases("ring-huge-zero-size", r.N(560, 14000), ev.Opt{HangViolation: true, MaxCaseSeconds: 60}, ringtyped.HugeCase)
+	r.Require("huge_ring_cases", 500)
+	r.Require("huge_ring_recaps", 1500)
 	r.Require("typed_nil_elements_popped", 2000)
 	r.Require("typed_ring_sequences", 2000)
 	r.Cases("syncring-bigcap", len(bigCaps), ev.Opt{HangViolation: true, Workers: 4}, bigCapCase)
